@@ -1351,10 +1351,9 @@ func buildProxyMetadataResponse(meta *metadata.ClusterMetadata, correlationID in
 	}}
 	topics := make([]protocol.MetadataTopic, 0, len(meta.Topics))
 	for _, topic := range meta.Topics {
-		if topic.ErrorCode != protocol.NONE {
-			topics = append(topics, topic)
-			continue
-		}
+		// Topics carrying a topic-level error keep their error code, but any
+		// partitions they list are rewritten like all others so that no
+		// backend broker ID leaks to the client.
 		partitions := make([]protocol.MetadataPartition, 0, len(topic.Partitions))
 		for _, part := range topic.Partitions {
 			partitions = append(partitions, protocol.MetadataPartition{
